@@ -19,11 +19,11 @@ RULE = ('cases: every grid-world shape with extents 0..N per axis (DiscreteWorld
         'is the coordinate; get_cell(x,y,z) is that very row (row label = id, pos and the distinguishing cell-component values equal '
         'to the coordinate\'s); outside coordinates raise IndexError. Non-trivial shape: >=2 cells; distinct by (world class, extents).')
 ASSUMPTIONS = ['exhaustive only for extents <= N', 'cell ids are obtained with discrete_grid_pos_to_id(x, y, width, z, height) as documented']
-FLOORS = {'quick': {'shapes': 72, 'cells_checked': 720, 'outside_probes': 2000, 'cells_rechecked_after_update': 700, 'shapes_with_zero_axis': 30, 'line_worlds': 2,
+FLOORS = {'quick': {'shapes': 72, 'cells_checked': 720, 'outside_probes': 2000, 'cells_rechecked_after_update': 700, 'wrapping_shapes': 100, 'cells_rechecked_after_regeneration': 500, 'shapes_with_zero_axis': 30, 'line_worlds': 2,
                     'grid_worlds': 8, 'reach:Environments.DiscreteWorld.get_cell': 2700, 'reach:Environments.discrete_grid_pos_to_id': 1400},
           'thorough': {'shapes': 500, 'cells_checked': 20000}}
-EXHAUSTIVE = {'quick': 'all grid shapes with extents 0..4 (125 DiscreteWorld, 4 LineWorld, 16 GridWorld), all in-range and just-outside coordinates',
-              'thorough': 'all grid shapes with extents 0..10 (1331 DiscreteWorld, 10 LineWorld, 100 GridWorld), all in-range and just-outside coordinates'}
+EXHAUSTIVE = {'quick': 'all grid shapes with extents 0..4 (125 DiscreteWorld, 4 LineWorld, 16 GridWorld) non-wrapping and wrapping, all in-range and just-outside coordinates',
+              'thorough': 'all grid shapes with extents 0..10 (1331 DiscreteWorld, 10 LineWorld, 100 GridWorld) non-wrapping, wrapping (DiscreteWorld up to 5), all in-range and just-outside coordinates'}
 
 
 def shapes(n):
@@ -33,6 +33,13 @@ def shapes(n):
         yield {'cls': 'LineWorld', 'ext': [w, 0, 0]}
     for w, h in itertools.product(range(1, n + 1), repeat=2):
         yield {'cls': 'GridWorld', 'ext': [w, h, 0]}
+    # the same for wrapping (toroidal) worlds: wrapping concerns agents' moves, cells outside the grid are still rejected
+    for w, h, d in itertools.product(range(min(n, 5) + 1), repeat=3):
+        yield {'cls': 'DiscreteWorld', 'ext': [w, h, d], 'wrap': True}
+    for w in range(1, n + 1):
+        yield {'cls': 'LineWorld', 'ext': [w, 0, 0], 'wrap': True}
+    for w, h in itertools.product(range(1, n + 1), repeat=2):
+        yield {'cls': 'GridWorld', 'ext': [w, h, 0], 'wrap': True}
 
 
 def build(case):
@@ -40,12 +47,13 @@ def build(case):
     import ECAgent.Environments as envs
     m = core.Model()
     w, h, d = case['ext']
+    wrap = bool(case.get('wrap'))
     if case['cls'] == 'DiscreteWorld':
-        env = envs.DiscreteWorld(m, w, h, d)
+        env = envs.DiscreteWorld(m, w, h, d, wrap_env=wrap)
     elif case['cls'] == 'LineWorld':
-        env = envs.LineWorld(m, w)
+        env = envs.LineWorld(m, w, wrap_env=wrap)
     else:
-        env = envs.GridWorld(m, w, h)
+        env = envs.GridWorld(m, w, h, wrap_env=wrap)
     return envs, env
 
 
@@ -89,6 +97,14 @@ def run_case(ctx, case):
         if row['code'] != code((x, y, z)) + 7 or tuple(row['pos']) != (x, y, z):
             raise CaseViolation(f'get_cell({x},{y},{z}) does not show the cell\'s current component value after the table was updated '
                                 f'(got {row["code"]}, table holds {code((x, y, z)) + 7})', shape=case)
+    # ... and a component regenerated under its old name through add_cell_component replaces the values, nothing else
+    env.add_cell_component('code', lambda pos, cells: code(pos) + 11)
+    for i, (x, y, z) in list(seen.items())[:: max(1, ncells // 16)]:
+        row = env.get_cell(x, y, z)
+        ctx.count('cells_rechecked_after_regeneration')
+        if not (len(row) == 3 and row['code'] == code((x, y, z)) + 11):
+            raise CaseViolation(f'after adding the component "code" again, get_cell({x},{y},{z}) returned {dict(row) if len(row) < 6 else len(row)} '
+                                f'instead of the cell\'s three values', shape=case)
     if ncells:
         i0 = ncells // 2
         env.cells.loc[i0, 'tag'] = 'changed'
@@ -105,12 +121,14 @@ def run_case(ctx, case):
                 ctx.ev()
                 ctx.count('outside_probes')
     ctx.count('shapes')
+    if case.get('wrap'):
+        ctx.count('wrapping_shapes')
     if 0 in case['ext'] and case['cls'] == 'DiscreteWorld':
         ctx.count('shapes_with_zero_axis')
     ctx.count({'LineWorld': 'line_worlds', 'GridWorld': 'grid_worlds', 'DiscreteWorld': 'discrete_worlds'}[case['cls']])
     if ncells >= 2:
-        ctx.distinct((case['cls'], tuple(case['ext'])))
-    ctx.state((case['cls'], tuple(case['ext'])))
+        ctx.distinct((case['cls'], tuple(case['ext']), bool(case.get('wrap'))))
+    ctx.state((case['cls'], tuple(case['ext']), bool(case.get('wrap'))))
 
 
 def run(ctx):
